@@ -224,7 +224,7 @@ def build(fam, hist):
             valid = True
         else:
             valid = VALID.get((fam, attr), lambda v: True)(value)
-        before = bfs.digest(vars(st.obj), 13) if not valid else None
+        before = bfs.digest(bfs.state_of(st.obj), 13) if not valid else None
         st.note = None
         try:
             setattr(st.obj, attr, value)
@@ -246,7 +246,7 @@ def build(fam, hist):
             # an out-of-range setter call is free as a call (raise / accept / change the object): outcome only.
             what = "%s.%s=%r" % (fam, attr, value)
             st.note = (what, "accepted" if raised is None else "raised:" + type(raised).__name__,
-                       "object_changed" if bfs.digest(vars(st.obj), 13) != before else "object_unchanged")
+                       "object_changed" if bfs.digest(bfs.state_of(st.obj), 13) != before else "object_unchanged")
             if st.after_invalid is None:
                 st.after_invalid = "%s.%s" % (fam, attr)
             # Afterwards the parameters the object REPORTS are the model: its loss formula must use them.
@@ -382,7 +382,7 @@ def check_pathloss_state(chk, fam, hist, st):
         chk.fail((fam, "use_shadow_bool_switched_on"), case, observed=obj.use_shadow_bool, expected=False)
         return
     if st.changed:
-        chk.nontriv((fam, model_key(st), bfs.digest(vars(obj), 12)))
+        chk.nontriv((fam, model_key(st), bfs.digest(bfs.state_of(obj), 12)))
     # readable parameters agree with the reference model
     for k, v in m.items():
         if hasattr(type(obj), k) and getattr(obj, k) != v:
@@ -1297,7 +1297,7 @@ def run_family(chk, fam, depth, inits_subset=None):
     def canon(hist, st):
         if st.problem is not None:
             return ("failed", hist)
-        return (fam, model_key(st), bfs.digest(vars(st.obj), 12))
+        return (fam, model_key(st), bfs.digest(bfs.state_of(st.obj), 12))
 
     bfs.BFS(chk, b, enabled, invariant, canon, depth, label=fam).run(inits)
 
